@@ -96,6 +96,19 @@ terminate after 3 steps
 """,
 }
 
+PROGRAMS["behavior-only-globals"] = """
+import verif_probe as probe
+a = Range(0, 1)
+b = Range(10, 11)
+c = DiscreteRange(20, 29)
+behavior B():
+    take probe.Act(a)
+    take probe.Act(b)
+    take probe.Act(c)
+ego = new Object at (0, 0, 0), with name "A1", with behavior B(), with allowCollisions True
+terminate after 3 steps
+"""
+
 SEEDS = (1, 2)
 
 
@@ -129,7 +142,7 @@ def one_run(scenario, seed, history, name):
     scene, its = scenario.generate(maxIterations=200)
     d = dump_scene(scene, its)
     d["rng_after"] = rng_state_digest()
-    if name == "dynamic":
+    if name in ("dynamic", "behavior-only-globals"):
         res = dyn.simulate(scene, maxSteps=5, timestep=1)
         d["sim"] = (list(res["outcome"]), [repr(e) for e in dyn.normalize_log(res["log"])])
         d["rng_after_sim"] = rng_state_digest()
